@@ -340,6 +340,11 @@ impl Blockchain {
                         > self
                             .get_latest_block_id()
                             .saturating_sub(self.genesis_period))
+                    // a chain that already holds a block at this height is not waiting for this block
+                    && self
+                        .blockring
+                        .get_longest_chain_block_hash_at_block_id(block_id)
+                        .is_none()
                 {
                     info!("blocks received out-of-order issue. handling edge case...");
 
@@ -351,7 +356,7 @@ impl Blockchain {
                         disconnected_block_id
                     );
 
-                    for i in block_id + 1..=disconnected_block_id {
+                    for i in block_id.saturating_add(1)..=disconnected_block_id {
                         if let Some(disconnected_block_hash) =
                             self.blockring.get_longest_chain_block_hash_at_block_id(i)
                         {
